@@ -9,7 +9,7 @@ from sa.load import AnalysisError, Repo, loc
 from sa.report import Run
 from spec import formulas
 
-from .common import elastic_graphs, eq_term, events, history_free, returns, show, term_of
+from .common import elastic_graphs, eq_term, events, history_free, kernel_histories, returns, show, term_of
 
 KERNELS = [
     'wavelength_from_tof', 'dspacing_from_tof', 'energy_from_tof', 'energy_from_wavelength',
@@ -135,8 +135,11 @@ def _run(tier: str) -> Run:
                  {'unit_assignments': n_runs, 'intermediates_bounded': n_checked, 'worst': worst}, key=f'conversion.tof:{name}:f32-box')
 
     # ---- R6: kernels are history-free -----------------------------------------
-    r6 = run.rule('R6', 'kernels write to no module-level state and hand out no memoised object', 9)
-    history_free(repo, [repo.func('conversion.tof', n) for n in KERNELS], r6)
+    r6 = run.rule('R6', 'results do not depend on call history: after any other kernel call (other units, other precision, another kernel) a kernel '
+                        'returns what it returns in a fresh interpreter (two-call histories interpreted in one world: memo tables, lru_cache '
+                        'stores and globals persist); no memoised object is handed out', 9)
+    kfis = [repo.func('conversion.tof', n) for n in KERNELS]
+    history_free(repo, kfis, r6, histories=kernel_histories(repo, kfis))
 
     # ---- R3: graph wiring ------------------------------------------------
     r3 = run.rule('R3', 'every graph entry q -> f(params) satisfies term(f)[p := D(p)] == D(q) (one-step soundness)', 23)
